@@ -90,6 +90,9 @@ fn strategy(tier: Tier) -> BoxedStrategy<LayoutCase> {
         // ties between rows settling on one day are broken by position in the input - not by trade date: in a third of the cases the
         // re-layout also moves the trade dates of rows whose figures cannot depend on it (no Bank-of-Canada look-up on that row, not a split)
         let retimed = seeds[63] % 3 == 0;
+        // a quarter of the inputs carry memos that span several lines (quoted cells with embedded line breaks), in both layouts
+        let mut base = base;
+        if seeds[62] % 4 == 0 { for (i, r) in base.rows.iter_mut().enumerate() { if seeds[(i * 5 + 3) % seeds.len()] % 3 != 0 { r.memo = ["bought in\ntwo lots\nsame day", "see note:\n- a\n- b", "line 1\nline 2"][i % 3].to_string(); } } tags.push("multi-line-memos".into()); }
         let mut rows = base.rows.clone();
         if retimed {
             for (i, r) in rows.iter_mut().enumerate() {
